@@ -26,6 +26,12 @@ def instances(tier):
         for nb in range(0, N):
             for pre in ([0] if tier == 'quick' else [0, 5]):
                 out.append((T, f'VH_C03_var_VarUInteger{N}', [nb, pre], {'weight': nb + 1}))
+    for (k, L, d) in ([(0, 0, 0), (1, 0, 0), (1, 9, 0), (2, 0, 0), (2, 0, 1), (2, 0, 30), (3, 7, 0), (3, 9, 5), (3, 256, 0)] if tier == 'quick' else
+                      [(0, 0, 0)] + [(1, L, 0) for L in (0, 1, 7, 8, 9, 255, 511)] + [(2, 0, d) for d in (0, 1, 2, 7, 8, 29, 30)] +
+                      [(3, L, d) for L in (0, 1, 7, 8, 9, 255, 256, 511) for d in (0, 5, 30)]):
+        out.append((T, 'VH_C03_MsgAddress', [k, L, d], {'weight': 20 + L // 8}))
+    for (k, i, b, vb) in [(0, 1, 1, 8), (1, 2, 0, 0), (2, 0, 1, 0)]:
+        out.append((T, 'VH_C16_Message', [k, i, b, vb], {'weight': 30}))
     for h in ('VH_C03_TickTock', 'VH_C03_ShardIdent', 'VH_C03_combinators', 'VH_C03_Grams', 'VH_C03_SignedCoins'):
         out.append((T, h, [], {'weight': 60}))
     return out
